@@ -29,15 +29,11 @@ ASSUMPTIONS = [
     "limits of a category are finite numbers; finite values stay below 1e150 (no float overflow is modelled)",
     "float conversions stay within K*eps*M (K=64) of the exact model; a verdict decided inside that margin of a "
     "limit is a don't-care unless the float conversion is exact",
-    "every non-base unit evaluates (a + b*x)/(c + d*x) (MakeCustomaryToBase/MakeBaseToCustomary): generated table "
-    "theorem `valshape` over all rows; numpy scalars are converted by float() before CheckValue",
+    "every non-base unit is made by MakeCustomaryToBase/MakeBaseToCustomary ((a + b*x)/c when d == 0, else "
+    "(a + b*x)/(c + d*x)): generated table theorem `valshape` over all rows; numpy scalars are converted by float() "
+    "before CheckValue",
     "the caption's title-casing in AddCategory is not modelled; aliasing of a mutable list handed to Array is C13's",
 ]
-# an infinite amount written in a unit whose conversion evaluates a formula reaches the limit check as NaN
-# (0.0 * inf) and is rejected, while the same amount in the default unit is accepted: reported as a finding of
-# the unchanged tree; the oracle does not demand unit independence for infinities until that is decided.
-SKIP_NONFINITE_NONDEFAULT = True
-
 QTYPES_QUICK = ["length", "temperature", "time", "pressure"]
 CONTAINERS = ("list", "tuple", "ndarray")
 
@@ -752,8 +748,6 @@ def _oracle_obj(db, op, obj):
             if not skip_nan and limited:
                 expected = False
             continue
-        if math.isinf(x) and unit != info.default_unit and SKIP_NONFINITE_NONDEFAULT:
-            return None
         y = _amount(db, info, unit, x)
         if _near(info, y):
             return None  # inside float rounding of a limit: don't care
@@ -880,35 +874,3 @@ def shrink(case, failure, ctx):
             if g and g.get("clause") == failure.get("clause"):
                 case, failure, ops = trial, g, trial["_t"]["ops"]
     return case, failure
-
-
-# ------------------------------------------------------------- the finding about infinities (see the report)
-def _inf_finding():
-    from barril.units import Scalar
-    from barril.units.unit_database import UnitDatabase
-
-    db = _new_db()
-    db.AddCategory("thickness", "length", default_unit="m", min_value=0.0)
-    UnitDatabase.PushSingleton(db)
-    try:
-        a = Scalar("thickness", math.inf, "m").IsValid()
-        b = Scalar("thickness", math.inf, "cm").IsValid()
-    finally:
-        UnitDatabase.PopSingleton()
-    if a != b:
-        return dict(clause="independently of the unit it is written in (infinities)",
-                    input="AddCategory('thickness','length',default_unit='m',min_value=0.0); "
-                          "Scalar('thickness', inf, 'm').IsValid() vs Scalar('thickness', inf, 'cm').IsValid()",
-                    got=[a, b])
-    return None
-
-
-def matches_known(entry, case, failure):
-    m = entry.get("matcher", {})
-    return m.get("clause") == "nonfinite-nondefault-unit" and "infinities" in str(failure.get("clause", ""))
-
-
-def replay_finding(entry, ctx):
-    if entry.get("matcher", {}).get("clause") == "nonfinite-nondefault-unit":
-        return _inf_finding()
-    return None
